@@ -271,7 +271,7 @@ theorem addDependent_eq (E : Env) (names : List Var) (cs : List Con) :
 omit H F in
 theorem keysInv_congr {fe fe' : Frontend} (hm : fe'.models = fe.models) (hv : fe'.variables = fe.variables) (h : KeysInv fe) :
     KeysInv fe' := by
-  intro m hmm kv hkv; rw [hv]; rw [hm] at hmm; exact h m hmm kv hkv
+  intro m hmm; rw [hv]; rw [hm] at hmm; exact h m hmm
 
 omit H F in
 theorem exactVars_congr {fe fe' : Frontend} (hc : fe'.constraints = fe.constraints) (hv : fe'.variables = fe.variables)
